@@ -172,6 +172,16 @@ def run(ctx):
     maxlen = ctx.pick(6, 12)
     for fw in ("torch", "tf"):
         cases = []
+        # planned, every run: each piece of three-way splits along each axis of a tensor whose mask varies along that axis (values and validity move together, piece by piece)
+        for axis in (0, 1):
+            for sizes in ([1, 1, 2], [2, 1, 1], [0, 2, 2], [1, 3, 0]):
+                shape = [4, 3] if axis == 0 else [3, 4]
+                n = shape[0] * shape[1]
+                env = [{"shape": shape, "data": [float(i + 1) for i in range(n)], "mask": [int((i * 7 + i // 3) % 3 != 0) for i in range(n)]},
+                       {"shape": shape, "data": [float(-i) for i in range(n)], "mask": [1] * n},
+                       {"shape": shape, "data": [0.5] * n, "mask": [1] * n, "plain": True}]
+                for piece in (0, 1, 2):
+                    cases.append((env, [{"k": "narrow", "r": 0, "axis": axis, "start": sum(sizes[:piece]), "len": sizes[piece], "split": sizes, "piece": piece}, {"k": "bin_scalar", "f": "add", "r": 3, "c": mtexec.f64_bits(2.0)}]))
         for _ in range(ctx.pick(250, 3000)):
             env, prog = gen_program(rng, fw, maxlen)
             if prog:
